@@ -875,6 +875,89 @@ Lemma calculate_order_flag {A} (calc : system -> option A) xyz vel box :
   calculate_order calc false xyz vel box = calc (Sys xyz vel box).
 Proof. split; reflexivity. Qed.
 
+(* the file route: as soon as one of xyz / vel / box is not handed in, the phase point is
+   the file's, with the direction of the vel_rev flag applied to the file's velocities *)
+Definition any_missing (xyz vel : option (list v3)) (box : option (list Z)) : bool :=
+  match xyz, vel, box with Some _, Some _, Some _ => false | _, _, _ => true end.
+
+Definition file_box (conf : system) (box0 : option (list Z)) : option (list Z) :=
+  match sbox conf with Some b => Some b | None => box0 end.
+
+Lemma calculate_order_file_route {A} (calc : system -> option A) r conf box0 xyz vel box :
+  any_missing xyz vel box = true ->
+  calculate_order_args calc r conf box0 xyz vel box =
+  calculate_order calc r (spos conf) (svel conf) (file_box conf box0).
+Proof.
+  unfold any_missing, calculate_order_args, calculate_order, file_box.
+  destruct xyz, vel, box; intro H; try discriminate H; reflexivity.
+Qed.
+
+Lemma calculate_order_array_route {A} (calc : system -> option A) r conf box0 x v b :
+  calculate_order_args calc r conf box0 (Some x) (Some v) (Some b) = calculate_order calc r x v (Some b).
+Proof. reflexivity. Qed.
+
+(* both routes give the same value for the same phase point *)
+Lemma calculate_order_routes_agree {A} (calc : system -> option A) r x v b box0 xyz vel box :
+  any_missing xyz vel box = true ->
+  calculate_order_args calc r (Sys x v (Some b)) box0 xyz vel box =
+  calculate_order_args calc r (Sys x v (Some b)) box0 (Some x) (Some v) (Some b).
+Proof.
+  intro H. rewrite (calculate_order_file_route calc r _ box0 xyz vel box H). reflexivity.
+Qed.
+
+Lemma calculate_order_file_flag {A} (calc : system -> option A) conf box0 xyz vel box :
+  any_missing xyz vel box = true ->
+  calculate_order_args calc true conf box0 xyz vel box =
+    calc (reverse_vel (Sys (spos conf) (svel conf) (file_box conf box0))) /\
+  calculate_order_args calc false conf box0 xyz vel box =
+    calc (Sys (spos conf) (svel conf) (file_box conf box0)).
+Proof.
+  intro H. rewrite !(calculate_order_file_route calc _ conf box0 xyz vel box H).
+  apply calculate_order_flag.
+Qed.
+
+(* sign of the velocity-type parameters / invariance of the position-type ones under the
+   vel_rev flag, on whichever route the phase point is obtained *)
+Lemma calculate_order_args_velocity i dim conf box0 xyz vel box :
+  calculate_order_args (velocity_calc i dim) true conf box0 xyz vel box =
+  option_map Z.opp (calculate_order_args (velocity_calc i dim) false conf box0 xyz vel box).
+Proof.
+  destruct (any_missing xyz vel box) eqn:H.
+  - destruct (calculate_order_file_flag (velocity_calc i dim) conf box0 xyz vel box H) as [Ht Hf].
+    rewrite Ht, Hf. apply velocity_reverse.
+  - destruct xyz as [x|], vel as [v|], box as [b|]; try discriminate H.
+    rewrite !calculate_order_array_route.
+    destruct (calculate_order_flag (velocity_calc i dim) x v (Some b)) as [Ht Hf].
+    rewrite Ht, Hf. apply velocity_reverse.
+Qed.
+
+Lemma calculate_order_args_distancevel fx i0 i1 per conf box0 xyz vel box :
+  calculate_order_args (distancevel_calc fx i0 i1 per) true conf box0 xyz vel box =
+  option_map (dv_scale (-1) 1) (calculate_order_args (distancevel_calc fx i0 i1 per) false conf box0 xyz vel box).
+Proof.
+  destruct (any_missing xyz vel box) eqn:H.
+  - destruct (calculate_order_file_flag (distancevel_calc fx i0 i1 per) conf box0 xyz vel box H) as [Ht Hf].
+    rewrite Ht, Hf. apply distancevel_reverse.
+  - destruct xyz as [x|], vel as [v|], box as [b|]; try discriminate H.
+    rewrite !calculate_order_array_route.
+    destruct (calculate_order_flag (distancevel_calc fx i0 i1 per) x v (Some b)) as [Ht Hf].
+    rewrite Ht, Hf. apply distancevel_reverse.
+Qed.
+
+Lemma calculate_order_args_position_type conf box0 xyz vel box :
+  (forall i dim, calculate_order_args (position_calc i dim) true conf box0 xyz vel box =
+                 calculate_order_args (position_calc i dim) false conf box0 xyz vel box) /\
+  (forall i0 i1 per, calculate_order_args (distance_calc i0 i1 per) true conf box0 xyz vel box =
+                     calculate_order_args (distance_calc i0 i1 per) false conf box0 xyz vel box) /\
+  (forall i0 i1 i2 i3 per, calculate_order_args (dihedral_calc i0 i1 i2 i3 per) true conf box0 xyz vel box =
+                           calculate_order_args (dihedral_calc i0 i1 i2 i3 per) false conf box0 xyz vel box) /\
+  (forall idx per, calculate_order_args (puckering_calc idx per) true conf box0 xyz vel box =
+                   calculate_order_args (puckering_calc idx per) false conf box0 xyz vel box).
+Proof.
+  unfold calculate_order_args, calculate_order.
+  destruct xyz, vel, box; repeat split.
+Qed.
+
 (* ================================================================== box forms *)
 
 Lemma firstn3_idem (b : list Z) : firstn 3 (firstn 3 b) = firstn 3 b.
